@@ -130,13 +130,15 @@ def run_engines(case):
         out_rx = None
         sent = [0] * len(chans)
         max_backlog = 0
+        nones = case.get("nones") or []       # [[stream, k], ...]: samples whose value is None
         for act in case["sched"] + [["c"], ["p"]]:
             if act[0] == "s":
                 g = act[1]
                 k = sent[g]
                 if k < len(case["streams"][g]):
                     t = E + timedelta(microseconds=TICK_US * case["streams"][g][k])
-                    await snd[g].send(Sample(t, Quantity(float(value_of(local[g], k)))))
+                    v = None if [g, k] in nones else Quantity(float(value_of(local[g], k)))
+                    await snd[g].send(Sample(t, v))
                     sent[g] += 1
                     max_backlog = max(max_backlog, len(rxs[g]._q))  # pylint: disable=protected-access
             elif act[0] == "y":
@@ -205,7 +207,9 @@ Definition check (c : list (list (list sample) * list (list nat)) * list (Z * li
 def c_stream(case, g, li):
     if not case["streams"][g]:
         return "(@nil sample)"
-    return "[" + "; ".join(f"({cZ(t * TICK_US)}, {cZ(value_of(li, k))})" for k, t in enumerate(case["streams"][g])) + "]"
+    nones = case.get("nones") or []
+    return "[" + "; ".join(f"({cZ(t * TICK_US)}, {cZ(-1 if [g, k] in nones else value_of(li, k))})"
+                           for k, t in enumerate(case["streams"][g])) + "]"
 
 
 def c_engine(case, e):
@@ -358,6 +362,18 @@ def gen_engine_case(rng, kind):
             rng.shuffle(p)
             perms.append(p)
         case["orders"] = {"0": perms}
+    if kind in ("grid_realset", "grid_order") and rng.random() < 0.35:
+        # missing (None) values: anywhere, and preferably in the first samples at/after the latest
+        # first timestamp (a component without data right after start-up)
+        nones = []
+        firsts = [s[0] for s in streams if s]
+        t0 = max(firsts) if firsts else 0
+        for g, sg in enumerate(streams):
+            for k, t in enumerate(sg):
+                p = 0.35 if t0 <= t <= t0 + 2 * d else 0.08
+                if rng.random() < p:
+                    nones.append([g, k])
+        case["nones"] = nones
     case["sched"] = gen_sched(rng, case["streams"])
     return case
 
@@ -475,8 +491,18 @@ def judge_engine_outputs(case, ids, outs):
     probs = []
     n = len(ids)
     d = case["d"]
+    nones = case.get("nones") or []
     for tick, v in outs:
-        ks = decode(v, n) if v is not None else None
+        # a missing (None) input value of that timestamp makes the sample None, nothing else does
+        miss = [g for g in ids if tick in case["streams"][g] and [g, case["streams"][g].index(tick)] in nones]
+        if v is None:
+            if not miss:
+                probs.append(f"value: sample at tick {tick} is None although every input has a value for that timestamp")
+            continue
+        if miss:
+            probs.append(f"value: sample at tick {tick} has value {v} although input {miss[0]} is None at that timestamp")
+            continue
+        ks = decode(v, n)
         if ks is None:
             probs.append(f"sample at tick {tick} has value {v} that is not a sum of one sample per input")
             continue
